@@ -74,6 +74,9 @@ func (p *Program) atomName(v ssa.Value, depth int) string {
 		if x.Op == token.MUL {
 			switch a := x.X.(type) {
 			case *ssa.FieldAddr:
+				if vals := p.boundFieldStores(x); len(vals) == 1 && depth < 6 {
+					return p.atomName(vals[0], depth+1)
+				}
 				_, f := fieldAddrName(a)
 				return "field:" + f
 			case *ssa.Global:
@@ -167,6 +170,9 @@ func (p *Program) linearize(v ssa.Value, depth int) Lin {
 				if sts := storesTo(a); len(sts) == 1 && depth < 8 {
 					return p.linearize(sts[0].Val, depth+1)
 				}
+			}
+			if vals := p.boundFieldStores(x); len(vals) == 1 && depth < 8 {
+				return p.linearize(vals[0], depth+1)
 			}
 		}
 	case *ssa.Call:
@@ -333,4 +339,72 @@ func (p *Program) guardFormsLin(b *ssa.BasicBlock) []CmpForm {
 		consider(d)
 	}
 	return out
+}
+
+// substParams rewrites a linear form computed inside callee (atoms param#i) into the caller's terms at call site cs.
+func (p *Program) substParams(l Lin, cs *ssa.Call) Lin {
+	out := newLin()
+	out.Konst = l.Konst
+	for k, v := range l.Coef {
+		var idx int
+		if n, err := fmt.Sscanf(k, "param#%d", &idx); err == nil && n == 1 && fmt.Sprintf("param#%d", idx) == k && idx < len(cs.Call.Args) {
+			out = out.add(p.linearize(cs.Call.Args[idx], 0).scale(v), 1)
+			continue
+		}
+		out.Coef[k] += v
+	}
+	for k, v := range out.Coef {
+		if v == 0 {
+			delete(out.Coef, k)
+		}
+	}
+	return out
+}
+
+// piecewiseCall: v is a call of a same-package unexported integer helper that returns 0 on some paths and one other
+// expression otherwise (`if n <= 0 { return 0 }; return expr`): the extracted form of `x := 0; if n > 0 { x = expr }`.
+// Returns expr's linear form and the comparison forms guarding it, both in the caller's terms.
+func (p *Program) piecewiseCall(v ssa.Value) (Lin, []CmpForm, bool) {
+	call, ok := stripConv(v).(*ssa.Call)
+	if !ok {
+		return Lin{}, nil, false
+	}
+	h := call.Call.StaticCallee()
+	if h == nil || len(h.Blocks) == 0 || h.Parent() != nil || fnPkgPath(h) != fnPkgPath(call.Parent()) || h.Object() == nil || h.Object().Exported() || h.Signature.Results().Len() != 1 {
+		return Lin{}, nil, false
+	}
+	var nz *ssa.Return
+	zeros := 0
+	for _, b := range h.Blocks {
+		r, ok := b.Instrs[len(b.Instrs)-1].(*ssa.Return)
+		if !ok {
+			continue
+		}
+		if k, isC := constInt(r.Results[0]); isC && k == 0 {
+			zeros++
+			continue
+		}
+		if nz != nil {
+			return Lin{}, nil, false
+		}
+		nz = r
+	}
+	if nz == nil {
+		return Lin{}, nil, false
+	}
+	for _, b := range h.Blocks { // pure: no stores, no calls other than to pure size helpers
+		for _, ins := range b.Instrs {
+			switch ins.(type) {
+			case *ssa.Store, *ssa.MapUpdate, *ssa.Send, *ssa.Go, *ssa.Defer:
+				return Lin{}, nil, false
+			}
+		}
+	}
+	l := p.substParams(p.linearize(nz.Results[0], 0), call)
+	var guards []CmpForm
+	for _, g := range p.guardFormsLin(nz.Block()) {
+		guards = append(guards, CmpForm{g.Rel, p.substParams(g.L, call)})
+	}
+	_ = zeros
+	return l, guards, true
 }
